@@ -154,6 +154,12 @@ func runMut(raw Sx) (Sx, Sx) {
 						w.Path("/d")
 						w.Route(w.GET("/y").To(say("D")))
 					}
+					// a registration the mux refuses (the pattern "/" belongs to the root service): the caller recovers and
+					// goes on; nothing of the refused call may stay behind
+					func() {
+						defer func() { recover() }()
+						c.Handle("/", http.NotFoundHandler())
+					}()
 					c.Add(w)
 					probeOwn("/"+nm+"/y", "200:"+strings.ToUpper(nm))
 					c.Remove(w)
